@@ -615,7 +615,11 @@ fn c03_rawmap() {
     let has_root: bool = kani::any();
     let has_did: bool = kani::any();
     let has_ign: bool = kani::any();
-    let has_content: bool = kani::any();
+    // contents of each of the two sources are present or absent independently
+    let c0: bool = kani::any();
+    let c1: bool = kani::any();
+    let table: bool = kani::any(); // whether the contents table exists at all
+    let has_content = table && (c0 || c1);
     if has_file {
         sm.file = Some("f".into());
     }
@@ -628,9 +632,9 @@ fn c03_rawmap() {
     if has_ign {
         sm.ignore_list.insert(1);
     }
-    if has_content {
-        sm.sources_content.push(None);
-        sm.sources_content.push(Some(crate::sourceview::SourceView::new("c".into())));
+    if table {
+        sm.sources_content.push(if c0 { Some(crate::sourceview::SourceView::new("c".into())) } else { None });
+        sm.sources_content.push(if c1 { Some(crate::sourceview::SourceView::new("d".into())) } else { None });
     }
     let raw = sm.as_raw_sourcemap();
     assert!(raw.version == Some(3), "C03/raw-version-3");
@@ -650,12 +654,17 @@ fn c03_rawmap() {
         assert!(il.len() == 1 && il[0] == 1, "C03/raw-ignore-list-values");
     }
     if let Some(ref sc) = raw.sources_content {
-        assert!(sc.len() == 2 && sc[0].is_none() && sc[1].as_ref().map(|s| s.len()) == Some(1), "C03/raw-contents-values");
+        assert!(sc.len() == 2 && sc[0].is_some() == c0 && sc[1].is_some() == c1, "C03/raw-contents-values");
+        if let Some(ref t) = sc[0] {
+            assert!(t.as_bytes() == b"c", "C03/raw-contents-values");
+        }
     }
     if let Some(ref r) = raw.source_root {
         assert!(r.as_bytes() == b"r", "C03/raw-source-root-value");
     }
     kani::cover!(has_file && has_root && has_did && has_ign && has_content, "everything present");
+    kani::cover!(table && c0 && !c1, "contents for the first source only");
+    kani::cover!(table && !c0 && !c1, "contents table with no contents");
     kani::cover!(!has_file && !has_root && !has_did && !has_ign && !has_content, "nothing present");
     forget(raw);
     forget(sm);
